@@ -217,6 +217,10 @@ func c02Check(ctx *Ctx, idx int, cs coreCase) {
 		cf.F.ResetLogs()
 		fed.Do(gw, cs.Query, cs.Vars, cs.OpName)
 		for _, c := range cf.F.AllCalls() {
+			if bad := foreignLookupID(cf, c); bad != "" {
+				ctx.Rep.Fail(hx.Failure{Kind: "property-fails", Detail: "a follow-up lookup node(id: $id) was sent with " + bad + ": the executor's own variable took a client value", Case: full, Impl: map[string]interface{}{"query": c.Query, "variables": c.Variables}, Index: idx})
+				return
+			}
 			doc, perr := gqlparser.LoadQuery(cf.F.Services[c.Service].Schema, c.Query)
 			if perr != nil || len(doc.Operations) != 1 {
 				continue
